@@ -343,8 +343,34 @@ def _order_cases(seed, tier):
             yield {"converter": c, "curie_remapping": m}
 
 
+def _exhaustive_curie_worlds():
+    """Every converter of 1-3 records over tiny pools (canonical prefixes a,b,c; at most one synonym each) and every
+    remapping with at most 3 pairs over the known names plus two unknown strings: all chains, swaps, maps onto
+    synonyms, partially applicable chains. Thorough tier only (exhaustive => `exhaustive` in the evidence)."""
+    names = ["a", "b", "c"]
+    syns = {"a": "a1", "b": "b1", "c": "c1"}
+    for n in (1, 2, 3):
+        for with_syn in itertools.product([False, True], repeat=n):
+            specs = [(names[i], f"u{i}/", [syns[names[i]]] if with_syn[i] else [], [], None) for i in range(n)]
+            try:
+                c = worlds.make_converter(specs, ":")
+            except Exception:
+                continue
+            known = [p for s in specs for p in [s[0]] + s[2]]
+            pool = known + ["x", "q"]
+            for k in (1, 2, 3):
+                if n == 3 and k == 3:
+                    continue
+                for keys in itertools.combinations(pool, k):
+                    for vals in itertools.product(pool, repeat=k):
+                        yield c, dict(zip(keys, vals))
+
+
 @domain("reconciliation.remap_curie_prefixes")
 def _remap_curie_cases(seed, tier):
+    if tier == "thorough":
+        for c, m in _exhaustive_curie_worlds():
+            yield {"converter": worlds.make_converter(worlds.describe_converter(c)["records"], ":"), "remapping": m}
     rng = random.Random(seed)
     for c in worlds.converters(25 if tier == "quick" else 150, seed):
         names = [p for r in c.records for p in [r.prefix] + list(r.prefix_synonyms)]
